@@ -293,6 +293,33 @@ def _run(stmts, env, stubs):
                         env[c.func.value.id] = box
                 except Exception:
                     env.pop(c.func.value.id, None)
+        elif isinstance(st, ast.For):
+            try:
+                items = list(ceval(st.iter, env, stubs))
+            except Exception:
+                _unbind(st, env)
+                continue
+            if len(items) > 64:
+                _unbind(st, env)
+                continue
+            broke = False
+            for it in items:
+                try:
+                    _bind(st.target, it, env)
+                except Exception:
+                    _unbind(st, env)
+                    break
+                try:
+                    _run(st.body, env, stubs)
+                except _Leave as l:
+                    if l.how == "break":
+                        broke = True
+                        break
+                    if l.how == "continue":
+                        continue
+                    raise
+            if not broke and st.orelse:
+                _run(st.orelse, env, stubs)
         elif isinstance(st, (ast.Continue, ast.Break, ast.Return, ast.Raise)):
             raise _Leave(type(st).__name__.lower())
         elif isinstance(st, ast.Pass):
